@@ -156,6 +156,12 @@ func (s *rpsSched) report() {
 		s.falseFin.Store(true)
 	}
 }
+func (s *rpsSched) reallyEnded() bool {
+	if s.total >= 0 {
+		return s.begun.Load() >= s.total
+	}
+	return !time.Now().Before(s.until)
+}
 func (s *rpsSched) Start(t time.Time) { s.inner.Start(t) }
 func (s *rpsSched) Next() (time.Time, bool) {
 	s.begun.Add(1)
@@ -203,7 +209,8 @@ func runFincb(f []string) string {
 		var wasEarly atomic.Bool
 		s := coreutil.NewCallbackOnFinishSchedule(inner, func() {
 			calls.Add(1)
-			if falseFin.Load() {
+			// ground truth at the instant the callback runs
+			if falseFin.Load() || !inner.reallyEnded() {
 				wasEarly.Store(true)
 			}
 		})
